@@ -124,6 +124,17 @@ def run(ck):
                 else:
                     if o["script_type"] != o["type"]:
                         bad.append("type inside the script is %s, outside %s" % (o["script_type"], o["type"]))
+                    if o.get("get_type") != o["type"] or o.get("getall_type") != o["type"]:
+                        bad.append("Get shows a %s, GetAll a %s, the value is a %s" % (o.get("get_type"), o.get("getall_type"), o["type"]))
+                    if o.get("get_same_object") is False:
+                        bad.append("Get hands back another object than the one the host added")
+                    imm = o["type"].startswith("immutable-")
+                    if not imm and (o.get("clone_type") != o["type"] or not o.get("clone_roundtrip")):
+                        bad.append("a clone holds a %s (equal: %s), the original a %s" % (o.get("clone_type"), o.get("clone_roundtrip"), o["type"]))
+                    if not imm and "clone_script_same" in o and t not in ("error", "undefined") and o["go"].find("NaN") < 0:
+                        if o["clone_script_same"] is not True or o["clone_script_type"] != o["type"]:
+                            bad.append("inside a clone's script the two copies of the value are %s and of type %s" % (
+                                "equal" if o["clone_script_same"] else "not equal", o["clone_script_type"]))
                     if not o["script_roundtrip"]:
                         bad.append("value read back after a run differs from the value handed in")
                     acc = o["acc"]
